@@ -549,7 +549,11 @@ def judge(ck, face, box, st):
         st.add("fail", clause, info.get("branch"), info.get("cause", "unattributed"), info["size"])
     if agrees is not None:
         st.add("corr_compared")
-        if not agrees and not bad:
+        if not agrees and not bad and face.get("_mrep") is not None and boxes_close(box, face["_mrep"]):
+            # the implementation meets the property and equals the REPAIRED normal branch (c13_bounds_repaired, proved to
+            # enclose): repaired code, not a broken tie
+            st.add("impl_equals_repaired_model")
+        elif not agrees and not bad:
             ck.corr_failures.append({"case": jc, "impl": box, "model": mfaith})
         elif not agrees and bad:
             st.add("corr_differs_on_failing_case")
@@ -571,7 +575,7 @@ def evaluate_one(ck, f, st, model_ok):
 
 def gen_cases(ck):
     rng = ck.rng
-    n = 420 if ck.tier == "quick" else 7000
+    n = 420 if ck.tier == "quick" else 15000
     faces = []
     cdir = os.path.join(common.VERIF, "corpus", "C13")
     if os.path.isdir(cdir):
